@@ -142,6 +142,9 @@ def fa_ref(case):
 def present(X, how):
     """Same values, different container / layout / dtype (see gen.presentation)."""
     X = np.asarray(X)
+    if how == "row1d":
+        # one frame as a 1-D vector of n_features values
+        return np.array(X[0], dtype=float) if X.ndim == 2 and X.shape[0] == 1 else X.astype(float)
     if how == "fortran":
         return np.asfortranarray(X.astype(float))
     if how == "strided":
